@@ -24,10 +24,11 @@ COPY = "/tmp/mut_tr6"
 SCRATCH = "/tmp/mut_tr6_out"
 
 A = "mofun/atoms.py"
+D = "mofun/detect_bonds.py"
 
 # (name, kind, file, [(old text, new text)], Props ids, expectation)
 MUTATIONS = [
-    ("unchanged", "control", None, [], "C10 C09", "pass"),
+    ("unchanged", "control", None, [], "C10 C09 C12 C17", "pass"),
     # ---- item 1: Atoms.__delitem__
     ("delitem: angle_types deleted with the BOND row list", "breaking", A,
      [("            self.bonds, arr_idx_to_delete = self._delete_and_reindex_atom_index_array(self.bonds, sorted_indices)\n",
@@ -106,6 +107,35 @@ MUTATIONS = [
        "        for ucmult in ucmults:\n            transatoms = self.copy()\n            shift = np.matmul(self.cell.T, ucmult)\n            transatoms.translate(shift)\n            repl_atoms.extend(transatoms, offsets=(0,0,0,0,0))\n")], "C12", "pass"),
     ("replicate NEUTRAL: explicit three ranges instead of the starred comprehension", "neutral", A,
      [("np.meshgrid(*[range(r) for r in repldims])", "np.meshgrid(range(repldims[0]), range(repldims[1]), range(repldims[2]))")], "C12", "pass"),
+    # ---- item 4: detect_bonds
+    ("detect_bonds: inner loop starts at idx1 (pairs i <= j)", "breaking", D,
+     [("enumerate(structure.positions[idx1+1:])", "enumerate(structure.positions[idx1:])")], "C17", "fail"),
+    ("detect_bonds: idx2 = i + idx1 (off by one)", "breaking", D, [("            idx2 = i + idx1 + 1\n", "            idx2 = i + idx1\n")], "C17", "fail"),
+    ("detect_bonds: inner loop over ALL atoms (each pair twice, self pairs)", "breaking", D,
+     [("enumerate(structure.positions[idx1+1:])", "enumerate(structure.positions[0:])")], "C17", "fail"),
+    ("detect_bonds: cutoff of (idx1, idx1)", "breaking", D,
+     [("max_bond_length(elements[idx1], elements[idx2])", "max_bond_length(elements[idx1], elements[idx1])")], "C17", "fail"),
+    ("detect_bonds: < -> <= (not expressible with the squared column)", "unsupported", D,
+     [("if np.any(ss < max_bond_length", "if np.any(ss <= max_bond_length")], "C17", "Unsupported"),
+    ("detect_bonds: np.any -> np.all", "unsupported", D, [("if np.any(ss < max_bond_length", "if np.all(ss < max_bond_length")], "C17", "Unsupported"),
+    ("detect_bonds: images of atom2 instead of atom1 minus offsets (atom1 - uc_offsets)", "unsupported", D,
+     [("atom1_positions = atom1 + uc_offsets", "atom1_positions = atom1 - uc_offsets")], "C17", "Unsupported"),
+    ("detect_bonds: no images even with a cell", "breaking", D,
+     [("        uc_offsets = uc_neighbor_offsets(structure.cell)\n", "        uc_offsets = np.array([[0., 0., 0.]])\n")], "C17", "fail"),
+    ("detect_bonds: the row is [idx2, idx1]", "breaking", D, [("bonds.append([idx1, idx2])", "bonds.append([idx2, idx1])")], "C17", "fail"),
+    ("detect_bonds: distance to atom1 itself", "breaking", D,
+     [("distance.cdist(atom1_positions, [atom2], \"euclidean\")", "distance.cdist(atom1_positions, [atom1], \"euclidean\")")], "C17", "fail"),
+    ("detect_bonds: cityblock metric", "unsupported", D,
+     [("distance.cdist(atom1_positions, [atom2], \"euclidean\")", "distance.cdist(atom1_positions, [atom2], \"cityblock\")")], "C17", "Unsupported"),
+    ("detect_bonds: offset (0, 0, 0.5) without a cell", "breaking", D,
+     [("uc_offsets = np.array([[0., 0., 0.]])", "uc_offsets = np.array([[0., 0., 0.5]])")], "C17", "fail"),
+    ("detect_bonds NEUTRAL: locals renamed, idx2 = idx1 + 1 + i, cutoff bound to a local", "neutral", D,
+     [("            idx2 = i + idx1 + 1\n", "            idx2 = idx1 + 1 + i\n"),
+      ("            if np.any(ss < max_bond_length(elements[idx1], elements[idx2])):\n",
+       "            cutoff = max_bond_length(elements[idx1], elements[idx2])\n            if np.any(ss < cutoff):\n")], "C17", "pass"),
+    ("detect_bonds NEUTRAL: branches of the cell test exchanged (is None)", "neutral", D,
+     [("    if structure.cell is not None:\n        # look at all 27-1 neighbors\n        uc_offsets = uc_neighbor_offsets(structure.cell)\n    else:\n        # look at only central cell since no boundaries\n        uc_offsets = np.array([[0., 0., 0.]])\n",
+       "    if structure.cell is None:\n        uc_offsets = np.array([[0., 0., 0.]])\n    else:\n        uc_offsets = uc_neighbor_offsets(structure.cell)\n")], "C17", "pass"),
     ("getitem NEUTRAL: keywords reordered", "neutral", A,
      [("        return Atoms(positions=np.take(self.positions, idx, axis=0),\n                     atom_types=np.take(self.atom_types, idx, axis=0),\n",
        "        return Atoms(atom_types=np.take(self.atom_types, idx, axis=0),\n                     positions=np.take(self.positions, idx, axis=0),\n")], "C09", "pass"),
@@ -225,7 +255,16 @@ def python_side():
     assert [tuple(int(v) for v in r) for r in got][:4] == [(5, 7, 1), (5, 8, 1), (5, 9, 1), (6, 7, 1)]
     cell = np.array([[1., 2, 3], [4, 5, 6], [7, 8, 10]])
     assert list(np.matmul(cell.T, np.array([1, 0, 2]))) == [15., 18., 23.]           # the example of Props/C12Code6.lean
-    return "python side: numpy conventions of Py6 hold"
+    # Py6.vecAddRows / cdistSqCol / anyDistLt against numpy + scipy
+    from scipy.spatial import distance
+    rows = np.array([1., 2., 3.]) + np.array([[0., 0., 0.], [1., 0., 0.], [0., -2., 0.]])
+    assert rows.tolist() == [[1., 2., 3.], [2., 2., 3.], [1., 0., 3.]]
+    ss = distance.cdist(rows, [[1., 2., 0.]], "euclidean")
+    assert ss.shape == (3, 1) and [round(float(v) ** 2, 9) for v in ss[:, 0]] == [9., 10., 13.]
+    for c in (-1., 0., 3., 3.0000001, 3.7):
+        assert bool(np.any(ss < c)) == (0 < c and any(d < c * c for d in (9., 10., 13.))), c
+    assert [1, 2, 3, 4][2 + 1:] == [4] and [1, 2][5:] == []
+    return "python side: numpy / scipy conventions of Py6 hold"
 
 
 def main():
